@@ -177,6 +177,7 @@ impl CRelationSet {
     }
 
     pub fn add(&mut self, r: CRelation) {
+        #[cfg(yamaquasi_verif)] crate::verif::ev(|| format!("\"op\":\"c_store_add\",\"l1\":{},\"l2\":{},\"maxlarge\":{}", r.large1.map(|x| x.0).unwrap_or(0), r.large2.map(|x| x.0).unwrap_or(0), self.maxlarge));
         match (r.large1, r.large2) {
             (None, None) => self.emit(r, 1),
             (Some((p, _)), None) if p < self.maxlarge => {
@@ -263,6 +264,7 @@ impl CRelationSet {
     }
 
     pub fn emit(&mut self, r: CRelation, clen: usize) {
+        #[cfg(yamaquasi_verif)] crate::verif::ev(|| format!("\"op\":\"c_emit\",\"clen\":{},\"l1\":{},\"l2\":{}", clen, r.large1.map(|x| x.0).unwrap_or(0), r.large2.map(|x| x.0).unwrap_or(0)));
         if self.print_cycles {
             // Display factors
             let mut line = vec![];
@@ -325,6 +327,7 @@ pub fn group_structure(
     outdir: Option<PathBuf>,
     tpool: Option<&rayon::ThreadPool>,
 ) -> Option<ClassGroup> {
+    #[cfg(yamaquasi_verif)] crate::verif::ev(|| format!("\"op\":\"c_linalg\",\"n\":{}", rels.len()));
     // Sparse linear algebra is used for discriminants above 200 bits.
     // The caller can adjust this using the knowledge of actual factor base.
     let use_sparse = use_sparse.unwrap_or(hest.1.log2() > 100.0);
